@@ -463,21 +463,28 @@ func minimizeAndStore(bin, bdir, prop string, seed uint64, v runResult, known []
 	var head specHead
 	json.Unmarshal(v.Spec, &head)
 	path := filepath.Join(verifDir, "replays", fmt.Sprintf("%s-%d-%s-%d.json", prop, seed, head.Family, head.Idx))
-	var spec map[string]any
-	json.Unmarshal(v.Spec, &spec)
+	// specs travel as raw JSON: they contain 64-bit seeds that float64 would round
+	spec := v.Spec
 	job := map[string]any{"mode": "minimize", "property": prop, "spec": spec, "known": known}
 	lines, err := runWorker(bin, bdir, job, 10*time.Minute)
-	var out map[string]any
+	var out struct {
+		Spec     json.RawMessage `json:"spec"`
+		Result   runResult       `json:"result"`
+		Verified bool            `json:"verified"`
+		Orig     int             `json:"original_decisions"`
+		Min      int             `json:"minimized_decisions"`
+		Error    string          `json:"error"`
+	}
 	if err == nil && len(lines) > 0 {
 		json.Unmarshal(lines[len(lines)-1], &out)
 	}
 	file := map[string]any{"property": prop, "seed": seed, "violation": map[string]any{"oracle": v.Oracle, "signature": v.Signature, "message": v.Message}}
-	if out != nil && out["verified"] == true {
-		file["spec"] = out["spec"]
-		res := out["result"].(map[string]any)
-		file["expect"] = map[string]any{"signature": res["signature"], "hash": res["hash"], "steps": res["steps"]}
-		file["minimised"] = map[string]any{"original_decisions": out["original_decisions"], "decisions": out["minimized_decisions"]}
-		file["log"] = res["log"]
+	if out.Verified {
+		file["spec"] = out.Spec
+		res := out.Result
+		file["expect"] = map[string]any{"signature": res.Signature, "hash": res.Hash, "steps": res.Steps}
+		file["minimised"] = map[string]any{"original_decisions": out.Orig, "decisions": out.Min}
+		file["log"] = res.Log
 	} else {
 		// could not minimise: store the seed-only spec (replays by regenerating the policy decisions)
 		file["spec"] = spec
@@ -504,9 +511,7 @@ func writeEvidence(prop, tier string, seed uint64, plan []planEntry, total int, 
 	}
 	var samples []any
 	for _, s := range agg.Samples {
-		var x any
-		json.Unmarshal(s, &x)
-		samples = append(samples, x)
+		samples = append(samples, s) // raw JSON: 64-bit seeds must not be rounded
 	}
 	if len(samples) == 0 {
 		samples = append(samples, "no run completed")
@@ -526,26 +531,26 @@ func writeEvidence(prop, tier string, seed uint64, plan []planEntry, total int, 
 		"distinct_nontrivial": distinct,
 		"rule": "one evaluation = one simulated run of a scenario family case inside a fresh world (seed VERIF_SEED, case index -> scenario, policy and every scheduling/delivery/fault decision). " +
 			"distinct = distinct hash of (scenario, sequence of context switches between task sites, delivery/fault decisions); non-trivial = at least one non-default decision or injected fault happened in the run (enumerated cases count by their distinct case). Families: " + strings.Join(famDesc, "; "),
-		"samples":                samples,
-		"exhaustive":             exhaustive,
-		"planned_cases":          total,
-		"families":               plan,
-		"runs_per_family":        agg.PerFamily,
-		"scheduler_steps":        agg.Steps,
-		"simulated_seconds":      float64(agg.VirtMS) / 1000,
-		"runs_per_hour":          runsPerHour,
-		"seeds":                  fmt.Sprintf("VERIF_SEED=%d, case indexes 0..%d of each family (PCG(seed, family, index))", seed, total-1),
-		"fault_kinds_fired":      agg.Faults,
-		"policy_mix":             agg.Policies,
-		"outcomes":               agg.Outcomes,
-		"inconclusive_runs":      agg.Outcomes["inconclusive"],
-		"rare_event_probes":      agg.Probes,
+		"samples":                    samples,
+		"exhaustive":                 exhaustive,
+		"planned_cases":              total,
+		"families":                   plan,
+		"runs_per_family":            agg.PerFamily,
+		"scheduler_steps":            agg.Steps,
+		"simulated_seconds":          float64(agg.VirtMS) / 1000,
+		"runs_per_hour":              runsPerHour,
+		"seeds":                      fmt.Sprintf("VERIF_SEED=%d, case indexes 0..%d of each family (PCG(seed, family, index))", seed, total-1),
+		"fault_kinds_fired":          agg.Faults,
+		"policy_mix":                 agg.Policies,
+		"outcomes":                   agg.Outcomes,
+		"inconclusive_runs":          agg.Outcomes["inconclusive"],
+		"rare_event_probes":          agg.Probes,
 		"distinct_switch_site_pairs": sitePairs,
-		"replay_unsafe_runs":     agg.ReplayUnsafe,
-		"known_findings":         kf,
-		"violations_detail":      viols,
-		"components":             componentsNote,
-		"build_s":                buildS,
+		"replay_unsafe_runs":         agg.ReplayUnsafe,
+		"known_findings":             kf,
+		"violations_detail":          viols,
+		"components":                 componentsNote,
+		"build_s":                    buildS,
 	}
 	ev := map[string]any{
 		"property_id": prop, "tier": tier, "seed": seed, "level": level, "coverage": cov,
@@ -584,7 +589,7 @@ func cmdReplay(args []string) int {
 	}
 	var file struct {
 		Property string         `json:"property"`
-		Spec     map[string]any `json:"spec"`
+		Spec     json.RawMessage `json:"spec"`
 		Expect   struct {
 			Signature string `json:"signature"`
 			Hash      string `json:"hash"`
